@@ -15,7 +15,7 @@ Proof.
   assert (Hrd : l_rd L = true) by apply HL.
   unfold t2_fresh. destruct Hcut as [E|[E|E]].
   - left. rewrite E. reflexivity.
-  - right; left. rewrite (wfL_hdr0_read m L _ HL E). cbn [classify set_val l_rd l_val]. rewrite Hrd. reflexivity.
+  - right; left. rewrite (wfL_hdr0_read m L _ HL ltac:(pose proof (len_nonneg d); lia) E). cbn [classify set_val l_rd l_val]. rewrite Hrd. reflexivity.
   - right; right. rewrite E, Hf. cbn [classify set_val l_rd l_val]. rewrite Hrd. reflexivity.
 Qed.
 
